@@ -102,7 +102,7 @@ def check_meta(pid, tier, seed, replay):
             return 1
         return 0
 
-    proof = build_proofs(pid, cfg, log)
+    proof = build_proofs(pid, cfg, log, tier)
 
     # ---- jobs: (component, build, envname, env, start, count) ; corpus first
     streams = []   # (tagprefix, name, build, env, lines)
@@ -269,6 +269,7 @@ def check_meta(pid, tier, seed, replay):
                 "component harnesses under harness/src/bin (generators, isolation by process, guard-page placement in harness/src/lib.rs); x86_64, 64-bit usize",
             ],
             "theorems": proof.get("theorems", []),
+            "coqchk": proof.get("coqchk", "not run in the quick tier"),
             "open_statements": cfg.get("open_statements", []),
             "proof_problems": proof["problems"],
             "infrastructure_problems": infra,
